@@ -470,18 +470,25 @@ def run(cs, log, ctx):
                                 f"from was built again: {why}", "rebuild")
                     rt = cs.weighted(f"prev{h}.rt", [(None, 5), ("json", 2),
                                                      ("raw_keep", 3)])
-                    if rt == "json":
-                        opm = hyruns.OptionManager.from_dict(
-                            json.loads(json.dumps(opm.to_dict())))
-                        opm.name = m.name
-                        log.ev("continue_from_dict", mi)
-                    elif rt == "raw_keep":
-                        # in-memory export/import; both managers live on
-                        snapd = opm.to_dict()
-                        derived.append((hyruns.OptionManager.from_dict(snapd),
-                                        pm, "in-memory dictionary"))
-                        log.ev("derive_from_dict", mi)
-                        ctx.hit("probe.derived_manager_kept_alive")
+                    try:
+                        if rt == "json":
+                            opm = hyruns.OptionManager.from_dict(
+                                json.loads(json.dumps(opm.to_dict())))
+                            opm.name = m.name
+                            log.ev("continue_from_dict", mi)
+                        elif rt == "raw_keep":
+                            # in-memory export/import; both managers live on
+                            snapd = opm.to_dict()
+                            derived.append(
+                                (hyruns.OptionManager.from_dict(snapd), pm,
+                                 "in-memory dictionary"))
+                            log.ev("derive_from_dict", mi)
+                            ctx.hit("probe.derived_manager_kept_alive")
+                    except Exception as e:
+                        raise Violation(
+                            "from_dict_raised", f"from_dict(to_dict()) raised "
+                            f"{e!r} under key names "
+                            f"{dict(hyruns._DICT_KEYNAMES)}", "rebuild")
             try:
                 opm.from_cartesian_product(**copy.deepcopy(m.kwargs()))
             except Exception as e:
